@@ -22,8 +22,8 @@ def run(ctx):
     add('omp.d1.h5.n2', D(1, 5, 2, 1), [-2, -1, 1, -2, 0, 0], 240, 'two translation levels; sibling sets cut by group boundaries; 3 schedules x block size x mode x upper level')
     add('omp.d1.h4.n2.faces', D(1, 4, 2, 0), [-2, -1, 1, -1, 0, 0], 200, '')
     add('omp.d2.h3.n3', D(2, 3, 3, 1), [-2, -1, 1, -1, 0, 0], 300, '')
-    add('omp.d2.h4.n2', D(2, 4, 2, 1), [-2, -1, 0, -1, 0, 0], 300, '')
-    add('omp.d3.h3.n2', D(3, 3, 2, 1), [-2, 0, 1, -1, 0, 0], 300, '')
+    add('omp.d2.h4.n2', D(2, 4, 2, 1), [2, -1, 0, -1, 0, 0], 300, '')
+    add('omp.d3.h3.n2', D(3, 3, 2, 1), [2, 0, 1, -1, 0, 0], 300, '')
     add('omp-tsm.d1.h4.s2.t1', DT(1, 4, 2, 1, 1), [-2, -1, 0, -2, 0, 0], 240, 'target/source OpenMP executor vs the sequential target/source executor', entry='h_c03_tsm', wrapper='w_omp_tsm.cpp', reach=(620, 621, 622))
     add('omp-tsm.d2.h3.s1.t1', DT(2, 3, 1, 1, 1), [-2, -1, 0, -1, 0, 0], 240, '', entry='h_c03_tsm', wrapper='w_omp_tsm.cpp', reach=(620, 621, 622))
     add('omp50.d1.h4.n3', D(1, 4, 3, 1), [-2, -1, 1, -2, 0, 0], 240, 'OpenMP 5.0 lowering: commute = mutexinoutset (tasks on the same buffer mutually exclusive, unordered)', omp=OMP50)
